@@ -43,7 +43,7 @@ FLOORS = {'*': {
     'accepted:PO': 50, 'accepted:PK': 500, 'accepted:KO': 100, 'accepted:VA': 50, 'accepted:VK': 50,
     'refused:PO': 50, 'refused:PK': 500, 'refused:KO': 100, 'refused:VA': 20, 'refused:VK': 20,
     'mode:none': 100, 'mode:name': 100, 'mode:positional': 50, 'mode:view': 100, 'mode:view-classmethod': 100,
-    'mode:view-staticmethod': 100,
+    'mode:view-staticmethod': 100, 'annotations-for-the-type-checker-only': 300,
     'style:def': 300, 'style:async': 300, 'style:async-plain': 300, 'client-names-context': 100,
     'context-identity-checked': 500, 'dual-registration-calls': 500,
 }}
@@ -97,7 +97,27 @@ def name_params(sig, ctx_at):
     return out
 
 
-def render(params, with_ctx, is_async, as_method, fname, first='self'):
+def render(params, with_ctx, is_async, as_method, fname, first='self', annot=False):
+    """annot: every parameter and the return value carry a string annotation naming something that exists for the type
+    checker only (`if TYPE_CHECKING: from x import T`): binding must never need to evaluate it"""
+    src = _render(params, with_ctx, is_async, as_method, fname, first)
+    if not annot:
+        return src
+    head, body = src.split('\n', 1)
+    inner = head[head.index('(') + 1:head.rindex(')')]
+    parts = []
+    for part in inner.split(', ') if inner else []:
+        if part in ('/', '*') or (as_method and first and part == first):
+            parts.append(part)
+        elif '=' in part:
+            n, d = part.split('=', 1)
+            parts.append(f"{n}: 'Xq9OnlyForTheTypeChecker' = {d}")
+        else:
+            parts.append(f"{part}: 'Xq9OnlyForTheTypeChecker'")
+    return f"{head[:head.index('(')]}({', '.join(parts)}) -> 'Xq9Result':\n{body}"
+
+
+def _render(params, with_ctx, is_async, as_method, fname, first='self'):
     parts, star = [], False
     plist = [p for p in params if with_ctx or not p[3]]
     n_po = sum(1 for p in plist if p[1] == 'PO')
@@ -131,7 +151,7 @@ def render(params, with_ctx, is_async, as_method, fname, first='self'):
     return head + '\n' + body
 
 
-def build_program(sig, ctx_at, mode, style):
+def build_program(sig, ctx_at, mode, style, annot=False):
     """returns (namespace with f / g / LOG / View, source)"""
     params = name_params(sig, ctx_at if mode in ('name', 'positional') else -1)
     is_async = style == 'async'
@@ -141,13 +161,13 @@ def build_program(sig, ctx_at, mode, style):
         src_g += '\n\n' + render(params, True, False, False, 'g2')
     if mode.startswith('view'):
         deco, first = {'view': ('', 'self'), 'view-classmethod': ('@classmethod', 'cls'), 'view-staticmethod': ('@staticmethod', '')}[mode]
-        meth = render(params, False, is_async, True, 'f', first)
+        meth = render(params, False, is_async, True, 'f', first, annot=annot)
         if deco:
             meth = deco + '\n' + meth
         src_f = ('class View(ViewMixin):\n    def __init__(self, context=None):\n        super().__init__()\n'
                  '        VIEWS.append((self, context))\n' + '\n'.join('    ' + l for l in meth.splitlines()))
     else:
-        src_f = render(params, True, is_async, False, 'f')
+        src_f = render(params, True, is_async, False, 'f', annot=annot)
     ns = {'LOG': [], 'VIEWS': [], 'ViewMixin': pjrpc.server.ViewMixin, '__name__': MODULE_NAME}
     src = src_g + '\n\n' + src_f + '\n'
     exec(compile(src, f'<{MODULE_NAME}>', 'exec', dont_inherit=True), ns)
@@ -167,9 +187,11 @@ def param_cases(params):
             yield {n: f'v_{n}' for n in sub}
 
 
-def run_program(ctx, sig, ctx_at, mode, style):
+def run_program(ctx, sig, ctx_at, mode, style, annot=False):
+    if annot:
+        ctx.hit('annotations-for-the-type-checker-only')
     try:
-        ns, src, params = build_program(sig, ctx_at, mode, style)
+        ns, src, params = build_program(sig, ctx_at, mode, style, annot)
     except SyntaxError as e:
         raise RuntimeError(f'generator produced invalid Python: {e}\n{sig} {ctx_at} {mode} {style}')
     is_async = style in ('async', 'async-plain')
@@ -333,6 +355,7 @@ def _sig_features(kinds_present):
 
 def gen(ctx):
     deep = ctx.thorough
+    k = 0
     sigs = signatures(4)
     if deep:
         five = [s for s in signatures(5) if len(s) == 5]
@@ -351,7 +374,8 @@ def gen(ctx):
             if at >= 0 and sig[at][1]:
                 continue        # a context parameter with a default adds nothing
             for style in ('def', 'async', 'async-plain'):
-                yield 'program', {'sig': sig, 'ctx_at': at, 'mode': mode, 'style': style}
+                k += 1
+                yield 'program', {'sig': sig, 'ctx_at': at, 'mode': mode, 'style': style, 'annot': k % 5 == 0}
 
 
 KINDS = {'program': run_program}
